@@ -20,6 +20,7 @@ import IgrisModel.C15.Lemmas9
 import IgrisModel.C15.Lemmas10
 import IgrisModel.C15.Lemmas11
 import IgrisModel.C15.Lemmas12
+import IgrisModel.C15.Lemmas13
 namespace Igris.C15
 open Igris.Proto
 
@@ -809,5 +810,191 @@ example : keyPresses [ESC, 0x5b, 0x31, 0x7e] = [.char 0x7e] ∧
     keyPresses [ESC, ESC, 0x5b, 0x41] = [.char 0x5b, .char 0x41] ∧
     keyPresses ([ESC] ++ [0x5b] ++ [0x41]) = [.up] ∧
     keyPresses [ESC, 0x5b] = [] := by decide
+
+/-! ### round 3b: every count of the C type (`unsigned int` / the `int` of the C++ wrappers) -/
+
+/- `sline_backspace(sl, unsigned int count)` / `sline_delete(sl, unsigned int count)` and
+`igris::sline::backspace(int)` / `del(int)` (the `int` converts to the `unsigned int` parameter:
+`del(-1)` = `sline_delete(sl, UINT_MAX)`, "delete everything right of the cursor").  The model
+functions `backspaceC` / `deleteC` compute every intermediate value as a `BitVec 32` in the order
+the code does. -/
+
+/-- NO OVERFLOW IN THE CODE'S ARITHMETIC: in every reachable state of a line (any buffer an
+`unsigned int` capacity can describe) and for EVERY count of the C type, the 32-bit computation of
+`sline_backspace` / `sline_delete` — the clamp `count > cursor` / `count > len - cursor`, `len -=
+count`, `cursor -= count`, the `memmove` length — is the unbounded computation of `Sline.backspace`
+/ `Sline.delete`, to which `sline_inv`, `sline_refines_zipper`, `sline_returns` apply; the value
+returned is `(int)` of the number of characters removed. -/
+theorem count_parameters_width (cap : Nat) (hcap : 1 ≤ cap) (hc : cap ≤ 4294967296) (ops : List SOp) (count : BitVec 32) :
+    let s := (Sline.init cap).runOps ops
+    (s.backspaceC count).1 = (s.backspace count.toNat).1 ∧ (s.backspaceC count).2 = toInt32 (s.backspace count.toNat).2 ∧
+    (s.deleteC count).1 = (s.delete count.toNat).1 ∧ (s.deleteC count).2 = toInt32 (s.delete count.toNat).2 := by
+  intro s
+  obtain ⟨h, hcp, _⟩ := runOps_ok (Sline.init cap) (init_ok cap hcap) ops
+  have hcp' : s.cap ≤ 4294967296 := by
+    have : s.cap = cap := hcp
+    omega
+  obtain ⟨a, b⟩ := backspaceC_eq s h hcp' count
+  obtain ⟨c, d⟩ := deleteC_eq s h hcp' count
+  exact ⟨a, b, c, d⟩
+
+/-- `sline_delete` / `igris::sline::del` REMOVE EXACTLY min(count, what is right of the cursor)
+CHARACTERS, for every `unsigned int` count, in every reachable state: with `z` the reference
+zipper after the same history, the line becomes `z.left ++ z.right.drop k`, `k = min count
+|z.right|`, the cursor stays, `0 ≤ cursor ≤ len < cap` holds, no access left the buffer, and `k`
+is returned (as an `int`: itself below 2^31). -/
+theorem delete_every_count (cap : Nat) (hcap : 1 ≤ cap) (hc : cap ≤ 4294967296) (ops : List SOp) (count : BitVec 32) :
+    let z := Zip.empty.runOps cap ops
+    let k := min count.toNat z.right.length
+    let r := ((Sline.init cap).runOps ops).deleteC count
+    r.1.text = z.left ++ z.right.drop k ∧ r.1.cursor = z.left.length ∧ r.1.len + k = z.left.length + z.right.length ∧
+    r.1.cursor ≤ r.1.len ∧ r.1.len < cap ∧ r.1.buf.length = cap ∧ r.1.fault = false ∧
+    r.2 = toInt32 k ∧ (cap ≤ 2147483648 → r.2 = (k : Int)) := by
+  intro z k r
+  obtain ⟨_, _, e1, e2⟩ := count_parameters_width cap hcap hc ops count
+  have hs : r.1 = (Sline.init cap).runOps (ops ++ [.delete count.toNat]) := by rw [runOps_snoc]; exact e1
+  obtain ⟨i1, i2, _, i4, i5⟩ := sline_inv cap hcap (ops ++ [.delete count.toNat])
+  obtain ⟨_, t2, t3⟩ := sline_refines_zipper cap hcap (ops ++ [.delete count.toNat])
+  obtain ⟨j1, j2, _, j4, _⟩ := sline_inv cap hcap ops
+  obtain ⟨_, u2, u3⟩ := sline_refines_zipper cap hcap ops
+  have hz : Zip.empty.runOps cap (ops ++ [.delete count.toNat]) = ⟨z.left, z.right.drop k⟩ := by
+    rw [zrunOps_snoc]; rfl
+  have hr : r.2 = toInt32 k := by
+    have := sline_returns cap hcap ops (.delete count.toNat)
+    show (((Sline.init cap).runOps ops).deleteC count).2 = _
+    rw [e2]
+    show toInt32 ((((Sline.init cap).runOps ops).apply (.delete count.toNat)).2) = _
+    rw [this]; rfl
+  rw [hz] at t2 t3
+  have hlen : r.1.len = (z.left ++ z.right.drop k).length := by
+    rw [← show r.1.text = z.left ++ z.right.drop k from by rw [hs]; exact t2]
+    rw [hs]; unfold Sline.text; rw [List.length_take]; omega
+  have hk : k ≤ z.right.length := Nat.min_le_right _ _
+  refine ⟨by rw [hs]; exact t2, by rw [hs]; exact t3, ?_, by rw [hs]; exact i1, by rw [hs]; exact i2,
+    by rw [hs]; exact i4, by rw [hs]; exact i5, hr, fun h31 => ?_⟩
+  · rw [hlen, List.length_append, List.length_drop]; omega
+  · rw [hr]; unfold toInt32
+    have hzl0 : (Zip.empty.runOps cap ops).left.length + (Zip.empty.runOps cap ops).right.length < cap := by
+      have : ((Sline.init cap).runOps ops).text.length = ((Sline.init cap).runOps ops).len := by
+        unfold Sline.text; rw [List.length_take]; omega
+      rw [u2] at this
+      unfold Zip.line at this; rw [List.length_append] at this
+      omega
+    have hzl : z.left.length + z.right.length < cap := hzl0
+    rw [Nat.mod_eq_of_lt (by omega), if_pos (by omega)]
+
+/-- the idiom the seeded change broke: `igris::sline::del(-1)` / `sline_delete(sl, UINT_MAX)` with the
+cursor ANYWHERE deletes everything right of the cursor and nothing else -/
+theorem delete_to_end_of_line (cap : Nat) (hcap : 1 ≤ cap) (hc : cap ≤ 4294967296) (ops : List SOp) :
+    let z := Zip.empty.runOps cap ops
+    let r := ((Sline.init cap).runOps ops).deleteI (-1)
+    r.1.text = z.left ∧ r.1.cursor = z.left.length ∧ r.1.len = z.left.length ∧ r.1.fault = false := by
+  obtain ⟨a, b, c, _, _, _, g, _, _⟩ := delete_every_count cap hcap hc ops (BitVec.ofInt 32 (-1))
+  obtain ⟨_, j2, _, j4, _⟩ := sline_inv cap hcap ops
+  obtain ⟨_, u2, _⟩ := sline_refines_zipper cap hcap ops
+  have hzl : (Zip.empty.runOps cap ops).left.length + (Zip.empty.runOps cap ops).right.length < cap := by
+    have : ((Sline.init cap).runOps ops).text.length = ((Sline.init cap).runOps ops).len := by
+      unfold Sline.text; rw [List.length_take]; omega
+    rw [u2] at this
+    unfold Zip.line at this; rw [List.length_append] at this
+    omega
+  have hk : min (BitVec.ofInt 32 (-1)).toNat (Zip.empty.runOps cap ops).right.length = (Zip.empty.runOps cap ops).right.length := by
+    have : (BitVec.ofInt 32 (-1)).toNat = 4294967295 := by decide
+    rw [this]; omega
+  simp only [hk] at a c
+  refine ⟨?_, b, ?_, g⟩
+  · show (((Sline.init cap).runOps ops).deleteC (BitVec.ofInt 32 (-1))).1.text = _
+    rw [a, List.drop_length, List.append_nil]
+  · show (((Sline.init cap).runOps ops).deleteC (BitVec.ofInt 32 (-1))).1.len = _
+    omega
+
+/-- non-vacuity: "abc", cursor after `a`, `del(-1)`: the line is `a` -/
+example : (((Sline.init 8).runOps [.newdata [0x61, 0x62, 0x63], .left, .left]).deleteI (-1)).1.text = [0x61] ∧
+    (((Sline.init 8).runOps [.newdata [0x61, 0x62, 0x63], .left, .left]).deleteI (-1)).2 = 2 := by decide
+
+/-- `sline_backspace` / `igris::sline::backspace` REMOVE EXACTLY min(count, cursor) CHARACTERS left
+of the cursor, for every `unsigned int` count, in every reachable state; bounds and safety kept. -/
+theorem backspace_every_count (cap : Nat) (hcap : 1 ≤ cap) (hc : cap ≤ 4294967296) (ops : List SOp) (count : BitVec 32) :
+    let z := Zip.empty.runOps cap ops
+    let k := min count.toNat z.left.length
+    let r := ((Sline.init cap).runOps ops).backspaceC count
+    r.1.text = z.left.take (z.left.length - k) ++ z.right ∧ r.1.cursor = z.left.length - k ∧
+    r.1.cursor ≤ r.1.len ∧ r.1.len < cap ∧ r.1.buf.length = cap ∧ r.1.fault = false ∧ r.2 = toInt32 k := by
+  intro z k r
+  obtain ⟨e1, e2, _, _⟩ := count_parameters_width cap hcap hc ops count
+  have hs : r.1 = (Sline.init cap).runOps (ops ++ [.backspace count.toNat]) := by rw [runOps_snoc]; exact e1
+  obtain ⟨i1, i2, _, i4, i5⟩ := sline_inv cap hcap (ops ++ [.backspace count.toNat])
+  obtain ⟨_, t2, t3⟩ := sline_refines_zipper cap hcap (ops ++ [.backspace count.toNat])
+  have hz : Zip.empty.runOps cap (ops ++ [.backspace count.toNat]) = ⟨z.left.take (z.left.length - k), z.right⟩ := by
+    rw [zrunOps_snoc]; rfl
+  have hr : r.2 = toInt32 k := by
+    have := sline_returns cap hcap ops (.backspace count.toNat)
+    show (((Sline.init cap).runOps ops).backspaceC count).2 = _
+    rw [e2]
+    show toInt32 ((((Sline.init cap).runOps ops).apply (.backspace count.toNat)).2) = _
+    rw [this]; rfl
+  rw [hz] at t2 t3
+  refine ⟨by rw [hs]; exact t2, ?_, by rw [hs]; exact i1, by rw [hs]; exact i2, by rw [hs]; exact i4, by rw [hs]; exact i5, hr⟩
+  rw [hs, t3]; show (z.left.take (z.left.length - k)).length = _
+  rw [List.length_take]; omega
+
+example : (((Sline.init 8).runOps [.newdata [0x61, 0x62, 0x63], .left]).backspaceI (-1)).1.text = [0x63] ∧
+    (((Sline.init 8).runOps [.newdata [0x61, 0x62, 0x63], .left]).backspaceC 0x80000000#32).2 = 2 := by decide
+
+/-- THE CLAMP WRITTEN WITH A SUM BREAKS IT (seeded change C15-sline-delete-clamp-wrap): `ab`, cursor
+after `a`, `sline_delete(sl, UINT_MAX)`: `cursor + count` wraps to 0, the clamp is skipped, `len`
+GROWS to 3 and the `memmove` source is 4 GiB behind the buffer — while the code's clamp removes the
+one character that is there.  (`deleteWrapped_eq_of_no_wrap`: for `cursor + count < 2^32` the two
+forms are the same function, which is why only counts from the top of the range tell them apart.) -/
+theorem delete_clamp_wrapped_witness :
+    let s := (Sline.init 4).runOps [.putchar 0x61, .putchar 0x62, .left]
+    (s.deleteWrapped 0xFFFFFFFF#32).1.len = 3 ∧ (s.deleteWrapped 0xFFFFFFFF#32).1.fault = true ∧
+    (s.deleteC 0xFFFFFFFF#32).1.len = 1 ∧ (s.deleteC 0xFFFFFFFF#32).1.text = [0x61] ∧
+    (s.deleteC 0xFFFFFFFF#32).1.fault = false ∧ (s.deleteC 0xFFFFFFFF#32).2 = 1 ∧
+    (s.deleteWrapped 0xFFFFFFFF#32).2 = -1 ∧
+    -- `UINT_MAX - cursor` is the last count the wrapped form still clamps
+    (s.deleteWrapped 0xFFFFFFFE#32).1.len = 1 ∧ (s.deleteWrapped 0xFFFFFFFE#32).2 = 1 := by decide
+
+/-- `set_size_and_cursor(size_t, size_t)` stores into `unsigned int` fields: inside its contract
+(`cursor ≤ sz < cap`, `cap` an `unsigned int`) nothing is truncated -/
+theorem set_size_width (s : Sline) (sz cursor : Nat) (h1 : cursor ≤ sz) (h2 : sz < s.cap) (hc : s.cap ≤ 4294967296) :
+    s.setSizeCursorC sz cursor = s.setSizeCursor sz cursor := by
+  unfold Sline.setSizeCursorC Sline.setSizeCursor
+  rw [Nat.mod_eq_of_lt (by omega), Nat.mod_eq_of_lt (by omega)]
+
+/-- outside it is: `set_size_and_cursor(2^32 + 1, 0)` gives length 1 -/
+example : ((Sline.init 4).setSizeCursorC 4294967297 0).len = 1 := by decide
+
+/-! ### round 3b: the history ring's offsets at their C width -/
+
+/-- `idx * rl->line.cap` and `rl->headhist * rl->line.cap` are `unsigned int` products.  After ANY key
+sequence, for a ring that fits an `unsigned int` (`depth * cap ≤ 2^32`) and a depth the `int hsize` of
+`readline_history_init` can hold, the offset the code adds to `history_space` — for every slot `num ≤
+depth` a recall can ask for, and for the slot a push writes — is the unbounded offset of the model
+(`histOff`, `headhist * cap`), to which `vterm_safe`, `history_is_reference`, `history_recall` apply.
+`_partial`: the hypothesis `depth * cap ≤ 2^32` (`cap` itself is an `unsigned int`). -/
+theorem ring_offsets_width_partial (cap depth : Nat) (hcap : 1 ≤ cap) (hd : 1 ≤ depth) (cxx : Bool) (prompt : List Byte)
+    (keys : List Byte) (hc : cap < 4294967296) (hdi : depth ≤ 2147483647) (hfit : depth * cap ≤ 4294967296)
+    (num : Nat) (hn : num ≤ depth) :
+    let rl := ((Vterm.init cap depth cxx prompt).run keys).nrl
+    rl.histOffC num = rl.histOff num ∧ rl.pushOffC = rl.headhist * rl.line.cap := by
+  intro rl
+  have hs := run_sim cap depth hd _ _ keys (init_sim cap depth hcap hd cxx prompt)
+  have h1 : rl.hsize = depth := hs.sim.histOK.hsize
+  have h2 : rl.headhist < depth := hs.sim.histOK.head
+  have h3 : rl.line.cap = cap := hs.sim.lcap
+  obtain ⟨a, b, _⟩ := histOffC_eq rl num (by omega) (by omega) (by omega) (by omega) (by omega) (by rw [h1, h3]; exact hfit)
+  exact ⟨a, b⟩
+
+example : ((Vterm.init 4 2 false).run [0x61, CR, 0x62, CR]).nrl.histOffC 1 = 4 ∧
+    ((Vterm.init 4 2 false).run [0x61, CR, 0x62, CR]).nrl.pushOffC = 0 := by decide
+
+/-- beyond it the product wraps: 65537 slots of 65536 bytes (4 GiB + 64 KiB), write index on the last
+slot: the push lands on slot 0 (offset 2^32 wraps to 0), a recall of that slot reads slot 0 — the
+offsets are wrong although every byte of the ring exists. -/
+theorem ring_offsets_width_witness :
+    let rl : Readline := { Readline.init 0 0 with line := { Sline.init 0 with cap := 65536 }, hsize := 65537, headhist := 65536 }
+    rl.pushOffC = 0 ∧ rl.headhist * rl.line.cap = 4294967296 ∧
+    rl.histOffC 0 = 0 ∧ rl.histOff 0 = 4294967296 ∧ rl.clearedC = 65536 := by decide
 
 end Igris.C15
